@@ -173,7 +173,8 @@ class MemoryPoolList {
     auto pool = &pools_[count_++];
     SlotCount poolCapacity = ARDUINOJSON_POOL_CAPACITY;
     if (count_ == maxPools)  // last pool is smaller because of NULL_SLOT
-      poolCapacity--;
+      poolCapacity = SlotCount(NULL_SLOT - SlotId(maxPools - 1) *
+                                               ARDUINOJSON_POOL_CAPACITY);
     pool->create(poolCapacity, allocator);
     return pool;
   }
@@ -210,7 +211,8 @@ class MemoryPoolList {
 
  public:
   static const PoolCount maxPools =
-      PoolCount(NULL_SLOT / ARDUINOJSON_POOL_CAPACITY + 1);
+      PoolCount(NULL_SLOT / ARDUINOJSON_POOL_CAPACITY +
+                (NULL_SLOT % ARDUINOJSON_POOL_CAPACITY != 0));
 };
 
 ARDUINOJSON_END_PRIVATE_NAMESPACE
